@@ -22,6 +22,6 @@ def run(ctx):
         facts["stop"]["hs_close"] = facts["struct"].get("hs_closes_conn", False)
         facts["stop"]["cb_release"] = facts["struct"].get("after_pump_releases", False)
         need = [("close", k) for k in c09.CFG_ORDER] + [("stop", k) for k in c10.CFG_ORDER] + \
-               [("struct", k) for k in ("after_pump_releases", "wg_add_before_go", "hs_closes_conn", "rt_unlock_before_close", "start_closes_transport")]
+               [("struct", k) for k in ("after_pump_releases", "wg_add_before_go", "hs_closes_conn", "rt_unlock_before_close", "start_closes_transport", "srp_closes_cwp", "swp_cwp_arm", "shr_done_arm", "swr_arms", "wr_arms")]
         missing = ["%s.%s" % (a, k) for a, k in need if not facts.get(a, {}).get(k)]
         ctx.oblige(not missing, "C14_pump_exits", "(every pump and reader of a session has a way out when the session ends: %s no longer found in the sources)" % ", ".join(missing))
